@@ -13,6 +13,7 @@ import (
 	"go/parser"
 	"go/token"
 	"reflect"
+	"regexp"
 	"sort"
 	"strconv"
 	"strings"
@@ -406,6 +407,78 @@ func init() {
 			return nil
 		}})
 	}
+}
+
+// ---------------------------------------------------------------- C04: a reference beside an item that renders as nothing
+
+// A Dict pair (or a list) holds a qualified identifier beside an item that is NOT null but renders no
+// text (Empty(), Id(""), Line()).  Such source is rarely valid Go, so the File is rendered with
+// NoFormat and the raw text is examined: a path is imported exactly when its qualifier occurs in the
+// body.
+func init() {
+	directExps = append(directExps, directExp{name: "reference-beside-empty-rendering-item", prop: "C04", run: func(r *Rng) *Finding {
+		paths := []string{"go/token", "a.com/x/keys", "b.org/lib/vals", "c.io/third"}
+		f := jen.NewFile("p")
+		f.NoFormat = true
+		if r.Chance(30) {
+			f.PackagePrefix = "pk"
+		}
+		empty := func() jen.Code {
+			switch r.Intn(3) {
+			case 0:
+				return jen.Empty()
+			case 1:
+				return jen.Id("")
+			}
+			return jen.Line()
+		}
+		d := jen.Dict{}
+		var desc []string
+		used := map[string]bool{}
+		for i := 0; i < 1+r.Intn(3); i++ {
+			p := paths[r.Intn(len(paths))]
+			sym := fmt.Sprintf("S%d", i)
+			used[p] = true
+			switch r.Intn(3) {
+			case 0:
+				d[jen.Qual(p, sym)] = empty()
+				desc = append(desc, fmt.Sprintf("Qual(%q, %q): <empty-rendering>", p, sym))
+			case 1:
+				d[jen.Id(fmt.Sprintf("k%d", i)).Add(empty())] = jen.Qual(p, sym)
+				desc = append(desc, fmt.Sprintf("k%d <empty-rendering>: Qual(%q, %q)", i, p, sym))
+			default:
+				d[empty()] = jen.Qual(p, sym)
+				desc = append(desc, fmt.Sprintf("<empty-rendering>: Qual(%q, %q)", p, sym))
+			}
+		}
+		f.Var().Id("m").Op("=").Map(jen.Any()).Any().Values(d)
+		var b bytes.Buffer
+		if err := f.Render(&b); err != nil {
+			return nil // not the subject here
+		}
+		out := b.String()
+		body := out
+		if i := strings.Index(out, "var m"); i >= 0 {
+			body = out[i:]
+		}
+		for _, p := range paths {
+			imported := strings.Contains(out[:len(out)-len(body)], strconv.Quote(p))
+			referenced := false
+			for i := 0; i < 4; i++ {
+				if used[p] && regexp.MustCompile(`[\pL_][\pL\pN_]*\.S`+fmt.Sprint(i)+`\b`).MatchString(body) {
+					// (which path a symbol belongs to is checked through the import line below)
+					referenced = referenced || strings.Contains(strings.Join(desc, "\n"), fmt.Sprintf("Qual(%q, \"S%d\")", p, i))
+				}
+			}
+			if imported && !referenced {
+				return &Finding{Property: "C04", Shape: "unused-import", What: fmt.Sprintf("path %q is imported but no qualified identifier of it is in the output", p), Case: strings.Join(desc, "\n"), Observed: trunc(out)}
+			}
+			if !imported && referenced {
+				return &Finding{Property: "C04", Shape: "missing-import", What: fmt.Sprintf("a qualified identifier of %q is in the output but the path is not imported", p), Case: strings.Join(desc, "\n"), Observed: trunc(out)}
+			}
+		}
+		return nil
+	}})
 }
 
 // ---------------------------------------------------------------- C09: one hint map handed to several Files
